@@ -38,6 +38,7 @@ Props(stage, clause) ==
   CASE stage = "DayEnd.closure"                      -> {"C01"}
     [] stage = "Carry"                               -> {"C01"}
     [] stage = "Reset" /\ clause \in {"water", "pond"} -> {"C01", "C08"}
+    [] stage = "Reset.fields"                        -> {"C08"}
     [] stage = "DayEnd.partition"                    -> {"C02"}
     [] stage = "RainPartition" /\ clause \in {"roSign", "roLeP", "split", "blocked"} -> {"C02"}
     [] stage = "DayEnd.bounds"                       -> {"C03"}
@@ -93,7 +94,7 @@ St0 == [ws |-> [W |-> <<>>, pond |-> Z], fcAdj |-> <<>>, begin |-> [W |-> <<>>, 
                  finished |-> FALSE, nStats |-> 0],
         d |-> ZeroLedger, prev |-> [gddCum |-> Z, zroot |-> Z, hi |-> Z, hiadj |-> Z, b |-> Z, bns |-> Z],
         crop |-> [calendarType |-> 1], phash |-> [none |-> 0], seasonIrr |-> Z, irrSeason |-> -1,
-        stage |-> 0, germ |-> FALSE, delayedCds |-> Z, delayedGdds |-> Z, irrCum |-> Z, exp |-> [none |-> 0], alive |-> TRUE, statIrr |-> Z, hasStat |-> FALSE]
+        stage |-> 0, ic0 |-> [none |-> 0], germ |-> FALSE, delayedCds |-> Z, delayedGdds |-> Z, irrCum |-> Z, exp |-> [none |-> 0], alive |-> TRUE, statIrr |-> Z, hasStat |-> FALSE]
 
 WsOf(s, e) == [W |-> IF Has(e, "W") THEN e.W ELSE s.ws.W, pond |-> IF Has(e, "pond") THEN e.pond ELSE s.ws.pond]
 
@@ -154,7 +155,8 @@ InitBoundsC(t, e) ==
 Chk_Initialize(t, s, e) == Tag("Init.dates", InitDatesC(t, e)) \cup Tag("Init.bounds", InitBoundsC(t, e))
 Upd_Initialize(t, s, e) ==
   [s EXCEPT !.ws = [W |-> e.W, pond |-> IF Has(e, "pond") THEN e.pond ELSE Z],
-            !.fcAdj = Cfg(t).Wfc, !.clk = e.clock, !.phash = e.phash, !.crop = Cfg(t).crop0]
+            !.fcAdj = Cfg(t).Wfc, !.clk = e.clock, !.phash = e.phash, !.crop = Cfg(t).crop0,
+            !.ic0 = IF Has(e, "ic") THEN e.ic ELSE s.ic0]
 
 \* ---- DayBegin
 DayBeginClockC(t, s, e) ==
@@ -413,6 +415,11 @@ AdvanceClockC(t, s, e) ==
 AdvanceVisibleC(t, s, e) == [ visibleIffFinished |-> e.visible = e.clock.finished ]
 \* seasonal irrigation of the summary equals the sum of the daily column over the season's days
 SeasonIrrC(t, s, e) == [ sum |-> (s.hasStat /\ (e.reset \/ e.clock.finished)) => Near(s.seasonIrr, s.statIrr, Tol6) ]
+\* every state field that a season start resets is back at the value it had after initialisation (HIfinal follows the season's crop)
+ResetFieldsC(t, s, e) ==
+  IF e.reset /\ Has(e, "ic") /\ Has(s.ic0, "dap")
+  THEN [f \in (DOMAIN e.ic) \ {"HIfinal"} |-> e.ic[f] = s.ic0[f]]
+  ELSE [ none |-> TRUE ]
 ResetC(t, s, e) ==
   LET c == Cfg(t) ws == WsOf(s, e) IN
   IF e.reset /\ ~c.offSeason
@@ -423,6 +430,7 @@ ResetC(t, s, e) ==
 Chk_Advance(t, s, e) == Tag("Advance.clock", AdvanceClockC(t, s, e)) \cup Tag("Advance.visible", AdvanceVisibleC(t, s, e))
                         \cup Tag("Season.irrSum", SeasonIrrC(t, s, e)) \cup Tag("Params", ParamsC(t, s, e))
                         \cup Tag(IF e.reset /\ ~Cfg(t).offSeason THEN "Reset" ELSE "Carry", ResetC(t, s, e))
+                        \cup Tag("Reset.fields", ResetFieldsC(t, s, e))
 Upd_Advance(t, s, e) ==
   [s EXCEPT !.ws = WsOf(s, e), !.clk = e.clock, !.phash = e.phash,
             !.crop = IF e.reset THEN e.crop ELSE s.crop,
